@@ -80,11 +80,15 @@ def run_real(S, case, chooser):
     got = [[] for _ in range(nsinks)]
     events = []  # ["call", dest, n, thread, step] / ["removed", dest, step] / ["added", dest, step]
 
+    unstamped = []
+
     def mksink(k):
         def sink(m):
             tid, step = S.current()
             events.append(["call", k, m.get("n"), tid, step - 1])
             got[k].append(m.get("n"))
+            if case.get("globals") and m.get("g0") != 1:
+                unstamped.append([k, m.get("n")])
         return sink
 
     sinks = [mksink(k) for k in range(nsinks)]
@@ -105,6 +109,10 @@ def run_real(S, case, chooser):
         return body
 
     def adder():
+        if case.get("globals"):
+            # a global field set by the adding thread before the first add - while a sender may already be under way: every
+            # delivery happens after it, so every delivered message must carry it
+            D.addGlobalFields(g0=1)
         D.add(*sinks[: case["dests"]])
         # the rest of the history, after the hand-over, in the same thread
         for op, k in after:
@@ -118,7 +126,7 @@ def run_real(S, case, chooser):
     res = S.run([logger(ids) for ids in case["loggers"]] + [adder], chooser)
     buffers = [d for d in D._destinations if isinstance(d, O.BufferingDestination)]
     obs = dict(got=got, events=events, errors={t: type(e).__name__ for t, e in res.errors.items()},
-               still_buffering=bool(buffers), any_added=bool(getattr(D, "_any_added", None)))
+               still_buffering=bool(buffers), any_added=bool(getattr(D, "_any_added", None)), unstamped=unstamped)
     return res, obs
 
 
@@ -128,6 +136,8 @@ def oracle(case, res, obs):
         return bad + ["threads deadlocked at %s" % sorted(res.deadlock.items())]
     if obs["errors"]:
         bad.append("send / add raised: %s" % obs["errors"])
+    if obs.get("unstamped"):
+        bad.append("messages delivered without the global field that was set before the first add_destinations (destination, n): %s" % obs["unstamped"])
     logged = [k for ids in case["loggers"] for k in ids]
     after = case.get("after", [])
     removed = {k for op, k in after if op == "remove"}
@@ -352,7 +362,7 @@ def run_handover(ctx, seconds=None):
     S = make_scheduler()
     rng = ctx.rng("handover-schedules")
     deadline = time.time() + (seconds if seconds is not None else ctx.budget(35, 300)) * sched.budget_scale()
-    MINCFG, MINPER = 7, 72  # minimum exploration whatever the clock says (7 configurations x 72 schedules >= 500)
+    MINCFG, MINPER = 9, 72  # minimum exploration whatever the clock says (7 configurations x 72 schedules >= 500)
     cases = [dict(pre=[], loggers=[[7]], dests=1, via="send"),
              dict(pre=[1, 2], loggers=[[7]], dests=1, via="send"),
              dict(pre=[], loggers=[[7]], dests=2, via="logger"),
@@ -361,6 +371,9 @@ def run_handover(ctx, seconds=None):
     cases += [dict(pre=[], loggers=[[7]], dests=1, via="send", after=[["remove", 0]]),
               dict(pre=[1], loggers=[[7]], dests=2, via="send", after=[["add", 2], ["remove", 2]]),
               dict(pre=[], loggers=[[7], [8]], dests=1, via="logger", after=[["remove", 0], ["add", 1]])]
+    # a global field set by the adding thread right before the first add, while senders are under way
+    cases += [dict(pre=[], loggers=[[7]], dests=1, via="send", globals=True),
+              dict(pre=[1, 2], loggers=[[7], [8]], dests=2, via="logger", globals=True)]
     if INCLUDE_REMOVE_BEFORE_OTHERS:
         cases.append(dict(pre=[1], loggers=[[7]], dests=2, via="send", after=[["add", 2], ["remove", 0]]))
     if not ctx.quick:
@@ -388,7 +401,7 @@ def run_handover(ctx, seconds=None):
             if k not in seen_keys or key is None:
                 seen_keys.add(k)
                 ctx.violation(bad[0], dict(full, observed=obs, also=bad[1:3]), key=key)
-        if not case.get("after"):  # the Lean model covers the first add only
+        if not case.get("after") and not case.get("globals"):  # the Lean model covers the first add only
             model_in.append(model_case(sk, case, res))
             model_ctx.append((full, case, obs))
         else:
